@@ -62,6 +62,7 @@ def run(rep, tier):
         leading(rep, meta, g, sfx)
         ruleenum(rep, meta, g, sfx)
         unescaped(rep, meta, sfx)
+        rejects(rep, meta, sfx)
         if cfg == "extras":
             tagwrap(rep, meta, sfx)
     lexicon(rep, g)
@@ -870,3 +871,61 @@ def tagwrap(rep, meta, sfx):
                                 "`#t = !a` reads as NegPred(a), the tag is lost without an error" % fn["name"])
     if n == 0:
         r.lost("the reader function that calls get_node_tag")
+
+
+# ------------------------------------------------------------------ REJECTS
+
+def rejects(rep, meta, sfx):
+    r = rep.rule("C07.REJECTS" + sfx, 3,
+                 "the reader turns the token tree into rules without refusing anything the meta-grammar accepts, except "
+                 "what it documents: numbers that overflow, malformed escapes, and a repetition count of zero.  So an "
+                 "explicit `return Err(..)` in the reader never sits under a comparison of two counts, nor of a count with "
+                 "a constant other than 0 (`e{2, 2}` and `e{5, 2}` are legal spellings and must be read back)")
+    INT = ("u32", "i32", "usize", "u64", "i64", "u8", "u16")
+    n = 0
+    for fn in meta.bodies:
+        if not fn["path"].startswith("pest_meta::parser::") or "::tests::" in fn["path"] or fn.get("exp") or fn.get("body") is None:
+            continue
+        rets = [x for x in walk(fn["body"]) if kind(x) == "Ret" and x.get("e") is not None and not hirq.is_desugar(x)
+                and kind(peel(x["e"])) == "Call" and str(callee(peel(x["e"]))).endswith("Result::Err")]
+        if not rets:
+            continue
+        ctx = hirq.Ctx(fn)
+        lets = hirq.lets(fn["body"])
+        for rt in rets:
+            n += 1
+            key = "%s:%s" % (fn["path"].replace("pest_meta::parser::", ""), hirq.line(rt))
+            numeric = []
+            for g in ctx.guards(rt):
+                if g[0] not in ("if", "guard", "not"):
+                    continue
+                stack = [g[1]]
+                while stack:
+                    cnd = peel(stack.pop())
+                    hops = 0
+                    while kind(cnd) == "Path" and cnd.get("res") == "local" and cnd.get("ty") == "bool" and cnd["id"] in lets and hops < 3:
+                        cnd = peel(lets[cnd["id"]][0])
+                        hops += 1
+                    if kind(cnd) == "Binary" and cnd["op"] in ("&&", "||"):
+                        stack += [cnd["l"], cnd["r"]]
+                        continue
+                    if kind(cnd) == "Unary" and cnd["op"] == "!":
+                        stack.append(cnd["e"])
+                        continue
+                    if kind(cnd) == "Binary" and cnd["op"] in ("<", "<=", ">", ">=", "==", "!="):
+                        l, rr = peel(cnd["l"]), peel(cnd["r"])
+                        if str(l.get("ty", "")).lstrip("&") in INT or str(rr.get("ty", "")).lstrip("&") in INT:
+                            numeric.append(cnd)
+            r.instance("reject:" + key, where(rt), "%d numeric guard(s)" % len(numeric))
+            for cnd in numeric:
+                l, rr = peel(cnd["l"]), peel(cnd["r"])
+                lv, rv = hirq.lit_value(l), hirq.lit_value(rr)
+                zero_test = (lv == 0 and not isinstance(lv, bool)) or (rv == 0 and not isinstance(rv, bool)) or \
+                    (cnd["op"] == "<" and rv == 1) or (cnd["op"] == ">" and lv == 1)
+                if not zero_test:
+                    r.violation("reject:%s" % fn["path"].replace("pest_meta::parser::", ""), where(cnd),
+                                "the reader returns an error under `%s`: a comparison of counts other than the documented "
+                                "`== 0` test refuses repetitions that the meta-grammar accepts (e.g. `e{2, 2}`), so that "
+                                "spelling is not read back" % hirq.expr_text(cnd)[:50])
+    if n == 0:
+        r.lost("explicit error returns of the reader (overflow / zero-count / escape rejections)")
